@@ -227,7 +227,10 @@ class Repo:
         if symbol in mod.imports:
             imp = mod.imports[symbol]
             if imp[0] == "sym":
-                return self.resolve_symbol(imp[1], imp[2], depth + 1)
+                if imp[1] == modname and imp[2] == symbol:
+                    return sub  # `from . import submodule`
+                r = self.resolve_symbol(imp[1], imp[2], depth + 1)
+                return r if r is not None else self.modules.get(f"{imp[1]}.{imp[2]}")
             return self.modules.get(imp[1])
         if symbol in mod.consts:
             return mod.consts[symbol]
